@@ -343,6 +343,206 @@ fn pairs(limit: usize, spans: &[usize]) {
     }
 }
 
+// ---- stage 2: operator tables and operator trees ---------------------------------------
+
+fn flags(values: impl Iterator<Item = bool>) -> String {
+    values.map(|b| if b { "1" } else { "0" }).collect::<Vec<_>>().join(" ")
+}
+
+fn prec() {
+    use darklua_core::verif_hooks::c02::binary_operator_precedence;
+    let ops = gen::BINARY_OPERATORS;
+    let a = || Expression::identifier("a");
+    println!("opnames {}", ops.iter().map(|o| format!("{:?}", o)).collect::<Vec<_>>().join(" "));
+    println!("prec {}", ops.iter().map(|o| binary_operator_precedence(*o).to_string()).collect::<Vec<_>>().join(" "));
+    println!("lassoc {}", flags(ops.iter().map(|o| o.is_left_associative())));
+    println!("rassoc {}", flags(ops.iter().map(|o| o.is_right_associative())));
+    for (i, o) in ops.iter().enumerate() {
+        let child = |c: BinaryOperator| Expression::from(BinaryExpression::new(c, a(), a()));
+        println!("left_binary {} {}", i, flags(ops.iter().map(|c| o.left_needs_parentheses(&child(*c)))));
+        println!("right_binary {} {}", i, flags(ops.iter().map(|c| o.right_needs_parentheses(&child(*c)))));
+        let unary = |u: UnaryOperator| Expression::from(UnaryExpression::new(u, a()));
+        println!("left_unary {} {}", i, flags(gen::UNARY_OPERATORS.iter().map(|u| o.left_needs_parentheses(&unary(*u)))));
+        println!("right_unary {} {}", i, flags(gen::UNARY_OPERATORS.iter().map(|u| o.right_needs_parentheses(&unary(*u)))));
+    }
+    println!("unary_operand {}", flags(ops.iter().map(|o| !o.precedes_unary_expression())));
+    // the unary-operand rule lives in the generators: read it back from their output
+    let mut bad = 0;
+    for o in ops {
+        for u in gen::UNARY_OPERATORS {
+            let e: Expression = UnaryExpression::new(u, BinaryExpression::new(o, a(), a())).into();
+            let block = Block::default().with_last_statement(ReturnStatement::one(e));
+            for text in [dense(&block, 80), readable(&block, 80)] {
+                let has = text.map(|t| t.contains('(')).unwrap_or(false);
+                if has == o.precedes_unary_expression() {
+                    bad += 1;
+                }
+            }
+        }
+    }
+    println!("unary_operand_check {}", bad);
+    // atoms are never parenthesised
+    let atoms: Vec<Expression> = samples()
+        .into_iter()
+        .filter(|(name, _)| {
+            !matches!(*name, "neg" | "not" | "len" | "negnum" | "ifexp" | "cast" | "cast_opt" | "concat" | "sub")
+        })
+        .map(|(_, e)| e)
+        .collect();
+    let mut bad = 0;
+    for o in ops {
+        for atom in &atoms {
+            if o.left_needs_parentheses(atom) || o.right_needs_parentheses(atom) {
+                bad += 1;
+            }
+        }
+    }
+    println!("atomcheck {} {}", atoms.len(), bad);
+    println!("end");
+}
+
+/// operator trees in Polish notation: `B<i> l r`, `U<i> x`, `P x`, `A<k>` (atom number k)
+#[derive(Clone, Debug)]
+enum Tree {
+    Atom,
+    NegZero,
+    Bin(usize, Box<Tree>, Box<Tree>),
+    Un(usize, Box<Tree>),
+    Paren(Box<Tree>),
+}
+
+impl Tree {
+    fn build(&self, next: &mut usize, polish: &mut Vec<String>) -> Expression {
+        match self {
+            Tree::Atom => {
+                let k = *next;
+                *next += 1;
+                polish.push(format!("A{}", k));
+                Expression::identifier(((b'a' + k as u8) as char).to_string())
+            }
+            Tree::NegZero => {
+                // a number node holding -0.0: must mean -(0)
+                polish.push("U1".into());
+                polish.push("A99".into());
+                DecimalNumber::new(-0.0).into()
+            }
+            Tree::Bin(i, l, r) => {
+                polish.push(format!("B{}", i));
+                let l = l.build(next, polish);
+                let r = r.build(next, polish);
+                BinaryExpression::new(gen::BINARY_OPERATORS[*i], l, r).into()
+            }
+            Tree::Un(i, x) => {
+                polish.push(format!("U{}", i));
+                let x = x.build(next, polish);
+                UnaryExpression::new(gen::UNARY_OPERATORS[*i], x).into()
+            }
+            Tree::Paren(x) => {
+                polish.push("P".into());
+                let x = x.build(next, polish);
+                ParentheseExpression::new(x).into()
+            }
+        }
+    }
+}
+
+/// all trees with exactly `n` operator nodes (parentheses are not counted and not generated here)
+fn trees(n: usize) -> Vec<Tree> {
+    if n == 0 {
+        return vec![Tree::Atom];
+    }
+    let mut out = Vec::new();
+    for x in trees(n - 1) {
+        for u in 0..3 {
+            out.push(Tree::Un(u, Box::new(x.clone())));
+        }
+    }
+    for k in 0..n {
+        let lefts = trees(k);
+        let rights = trees(n - 1 - k);
+        for l in &lefts {
+            for r in &rights {
+                for o in 0..16 {
+                    out.push(Tree::Bin(o, Box::new(l.clone()), Box::new(r.clone())));
+                }
+            }
+        }
+    }
+    out
+}
+
+fn emit_tree(id: &mut usize, tree: &Tree, spans: &[usize], tag: &str) {
+    let mut polish = Vec::new();
+    let mut next = 0;
+    let expression = tree.build(&mut next, &mut polish);
+    let block = Block::default().with_last_statement(ReturnStatement::one(expression));
+    for span in spans {
+        let d = dense(&block, *span);
+        let r = readable(&block, *span);
+        println!(
+            "op {} {} {} {} {} {} {} {}",
+            *id,
+            span,
+            polish.join(","),
+            d.as_ref().map(|s| hex_or_dash(s.as_bytes())).unwrap_or_else(|| "PANIC".into()),
+            r.as_ref().map(|s| hex_or_dash(s.as_bytes())).unwrap_or_else(|| "PANIC".into()),
+            reparse(&block, &d),
+            reparse(&block, &r),
+            tag
+        );
+        *id += 1;
+    }
+}
+
+fn random_tree(rng: &mut Rng, depth: usize) -> Tree {
+    if depth == 0 || rng.chance(1, 5) {
+        return if rng.chance(1, 12) { Tree::NegZero } else { Tree::Atom };
+    }
+    match rng.below(10) {
+        0 | 1 | 2 => Tree::Un(rng.below(3), Box::new(random_tree(rng, depth - 1))),
+        3 => Tree::Paren(Box::new(random_tree(rng, depth - 1))),
+        _ => Tree::Bin(
+            rng.below(16),
+            Box::new(random_tree(rng, depth - 1)),
+            Box::new(random_tree(rng, depth - 1)),
+        ),
+    }
+}
+
+fn ops(seed: u64, full: bool, sample: u64) {
+    let mut id = 0usize;
+    for n in 1..=2 {
+        for tree in trees(n) {
+            emit_tree(&mut id, &tree, &[1, 1_000_000_000], "exhaustive");
+        }
+    }
+    let mut rng = Rng::new(seed);
+    let triples = trees(3);
+    if full {
+        for tree in &triples {
+            emit_tree(&mut id, tree, &[80], "exhaustive3");
+        }
+    } else {
+        for _ in 0..sample {
+            let tree = &triples[rng.below(triples.len())];
+            emit_tree(&mut id, tree, &[80], "sample3");
+        }
+    }
+    // deeper random trees, with explicit parentheses and negative-zero number leaves
+    for k in 0..sample {
+        let tree = random_tree(&mut rng, 3 + (k % 4) as usize);
+        emit_tree(&mut id, &tree, &[7, 80], "random");
+    }
+    // -0.0 as an operand of every operator
+    for o in 0..16 {
+        emit_tree(&mut id, &Tree::Bin(o, Box::new(Tree::NegZero), Box::new(Tree::Atom)), &[80], "negzero");
+        emit_tree(&mut id, &Tree::Bin(o, Box::new(Tree::Atom), Box::new(Tree::NegZero)), &[80], "negzero");
+    }
+    for u in 0..3 {
+        emit_tree(&mut id, &Tree::Un(u, Box::new(Tree::NegZero)), &[80], "negzero");
+    }
+}
+
 fn main() {
     let args: Vec<String> = std::env::args().skip(1).collect();
     let args = &args[..];
@@ -351,6 +551,12 @@ fn main() {
     match sub {
         "tables" => tables(arg_u64(args, "--seed", 1)),
         "stream" => stream(arg_u64(args, "--seed", 1), arg_u64(args, "--n", 100)),
+        "prec" => prec(),
+        "ops" => ops(
+            arg_u64(args, "--seed", 1),
+            args.iter().any(|a| a == "--full"),
+            arg_u64(args, "--sample", 2000),
+        ),
         "pairs" => {
             let limit = arg_u64(args, "--limit", 1000) as usize;
             if args.iter().any(|a| a == "--all-spans") {
